@@ -9,6 +9,7 @@ import (
 
 	"verif/harness/core"
 	"verif/harness/gen"
+	"verif/harness/refsql"
 )
 
 // documented token class characters (sqli_const.go), without the internal
@@ -259,6 +260,15 @@ func seenHashOrDDX(s string, mode int, p *li.VerifSQLPass) bool {
 	if len(s) > 1<<16 {
 		return gate(p)
 	}
+	// second opinion from the reference lexer (package refsql, written from the
+	// documented algorithm): did ITS pass over the same input count a '#' or a
+	// "--x"? A library lexer that stops seeing '#' as such (a new "#>" operator)
+	// hides it from the token walk below as well.
+	if strings.IndexByte(s, '#') >= 0 || strings.Contains(s, "--") {
+		if _, _, _, ddx, hash := refsql.FoldOnly(s, refMode(mode), refLookup()); ddx+hash > 0 {
+			return true
+		}
+	}
 	tr := li.VerifSQLTokens(s, mode)
 	n := p.StatsTokens
 	if n > len(tr.Tokens) {
@@ -336,10 +346,21 @@ var c08Thorough = []Mix{
 func c08() *core.Check {
 	return &core.Check{
 		ID: "C08",
-		Rule: "IsSQLi is called on every SQL workload input (incl. attack-grammar members and their near misses, whitelist-boundary shapes); the returned pair is checked against the consistency predicates, the live blacklist and the per-context fingerprints computed on fresh state; every returned fingerprint string is kept as returned and compared with a copy eight positive calls later. " +
+		Rule: "IsSQLi is called on every SQL workload input (incl. attack-grammar members and their near misses, whitelist-boundary shapes, every key of the live keyword table in 8-13 sentence frames); the returned pair is checked against the consistency predicates, the live blacklist and the per-context fingerprints computed on fresh state; every returned fingerprint string is kept as returned and compared with a copy eight positive calls later. " +
 			"Non-trivial = distinct (verdict, fingerprint, firing context) triples plus distinct true-verdict inputs.",
-		Plan: sqlPlan(c08Quick, c08Thorough),
-		Gen:  sqlGen,
+		Plan: func(tier string, seed uint64) []core.Unit {
+			us := sqlPlan(c08Quick, c08Thorough)(tier, seed)
+			// every key of the live keyword table in sentence frames (a re-typed or
+			// added table entry reaches the fingerprint through the phrase merge)
+			return append(us, core.Unit{Gen: "phrases", Lo: 0, Hi: 1, Arg: tier})
+		},
+		Gen: func(w *core.Worker, u core.Unit, emit func(core.Case)) {
+			if u.Gen == "phrases" {
+				genKeywordContexts(u.Arg == "thorough", emit)
+				return
+			}
+			sqlGen(w, u, emit)
+		},
 		One: func(w *core.Worker, c core.Case) {
 			s := c.In
 			w.Eval(1)
@@ -448,7 +469,7 @@ func c08() *core.Check {
 func c12() *core.Check {
 	return &core.Check{
 		ID: "C12",
-		Rule: "for every SQL workload input: (a) IsSQLi is compared with the documented cascade evaluated over fresh-state per-context observations (the MySQL gate is decided from the tokens the ANSI pass lexed: a '#' operator or a '--x' comment); (a') a flood of 24 M (thorough 400 M) pairwise distinct inputs of equal length (24-1024 bytes; attack and benign templates with random filler, 16 goroutines), each answer compared with its template's cascade answer and, on disagreement, with the cascade of that input: an answer remembered under a lossy key (up to about 32 bits) is handed to another input here; (c) all five readings run in cascade order on one re-used state (build-tagged accessor that walks the state the way check() does) are compared, reading by reading, with the same readings on fresh states; (b) for q in {',\"} and both dialects the fingerprint, verdict (unless sos/s&s) and token stream of reading s inside q are compared with reading q+s as-is. " +
+		Rule: "for every SQL workload input: (a) IsSQLi is compared with the documented cascade evaluated over fresh-state per-context observations (the MySQL gate is decided from the tokens the ANSI pass lexed - a '#' operator or a '--x' comment - or from the reference lexer's own count for that pass); (a') a flood of 24 M (thorough 400 M) pairwise distinct inputs of equal length (24-1024 bytes; attack and benign templates with random filler, 16 goroutines), each answer compared with its template's cascade answer and, on disagreement, with the cascade of that input: an answer remembered under a lossy key (up to about 32 bits) is handed to another input here; (c) all five readings run in cascade order on one re-used state (build-tagged accessor that walks the state the way check() does) are compared, reading by reading, with the same readings on fresh states; (b) for q in {',\"} and both dialects the fingerprint, verdict (unless sos/s&s) and token stream of reading s inside q are compared with reading q+s as-is. " +
 			"Non-trivial = distinct inputs whose firing context is not the first, or whose quote-context token stream has >= 2 tokens.",
 		Plan: func(tier string, seed uint64) []core.Unit {
 			us := sqlPlan(c08Quick, c08Thorough)(tier, seed)
